@@ -87,6 +87,12 @@ check("C12", "exploration",
       "Trusted: the generator's XML writer, the reference filter and includable-part function.",
       "DESIGN.md §3 C12")
 
+check("C18", "exploration",
+      EXH + "independent reference definitions (AST fold for #expr, help-text definitions for the string functions, round-trip oracle for formatnum)",
+      "Every #expr AST of depth <= 2 (thorough: 3 over adjacent precedence levels) over all 17 binary and 16 unary operators in three renderings (minimal parentheses from the documented precedence table, full parentheses, spacing/case variation), full argument grids of #len/#pos/#rpos/#sub/#replace/#explode/#titleparts/padleft/padright/lc/uc/lcfirst/ucfirst/urlencode/#urldecode over all strings of length <= 4 (thorough 6) and all integers in [-10,10], plural, and formatnum|R over all 96 shipped locales x numeral shapes: 2.5M evaluations quick.",
+      "Trusted: the reference definitions in vmc/props/c18.py; float tolerance 1e-9; ill-defined expressions (domain/overflow) are C05's.",
+      "DESIGN.md §3 C18")
+
 NOT_APPLICABLE = {}
 for i in range(1, 21):
     pid = "C%02d" % i
